@@ -1,9 +1,9 @@
 SPECIFICATION Spec
 CONSTANTS
   MaxLen = 40
-  NRand = 24
-  BitStep = 11
-  NRandSeeds = 3
+  NRand = 60
+  BitStep = 5
+  NRandSeeds = 4
   Keys <- MCKeys
   Seeds <- MCSeeds
   Obs <- ObsEmit
